@@ -17,6 +17,7 @@ import (
 	"reflect"
 	"strings"
 	"testing"
+	"time"
 	"unicode/utf8"
 
 	"github.com/crewjam/saml"
@@ -68,6 +69,16 @@ type Conf struct {
 	NameIDFormat string `json:"nameid_format"`
 	ForceAuthn   *bool  `json:"force_authn,omitempty"`
 	AuthnCtx     *Ctx   `json:"authn_ctx,omitempty"`
+
+	// IDPLayout: how the SP's copy of the IdP metadata lists its endpoints: "" (redirect, POST),
+	// "post-first" (POST, redirect), "decoys" (endpoints of OTHER bindings with other locations
+	// before and between them).  The destination must be the endpoint of the requested binding.
+	IDPLayout string `json:"idp_layout,omitempty"`
+	// Fields no clause mentions; varied, never judged.
+	LogoutBindings     []string `json:"logout_bindings,omitempty"`
+	AllowIDPInitiated  bool     `json:"allow_idp_initiated,omitempty"`
+	ValidDurationS     int      `json:"valid_duration_s,omitempty"`
+	DefaultRedirectURI string   `json:"default_redirect_uri,omitempty"`
 }
 
 // Ctx is a RequestedAuthnContext.
@@ -83,6 +94,19 @@ type Msg struct {
 	RelayState string `json:"relay_state"`
 	NameID     string `json:"name_id,omitempty"`    // logoutreq
 	RequestID  string `json:"request_id,omitempty"` // logoutresp: InResponseTo
+
+	// Set: public fields of the ONE long-lived ServiceProvider value changed right before this
+	// creation (nil = left alone).  The message must reflect the configuration in force then.
+	Set *Set `json:"set,omitempty"`
+}
+
+// Set is a configuration change between two creations.
+type Set struct {
+	EntityID     *string `json:"entity_id,omitempty"`
+	NameIDFormat *string `json:"nameid_format,omitempty"`
+	ForceAuthn   string  `json:"force_authn,omitempty"` // "" unchanged | nil | true | false
+	AuthnCtx     string  `json:"authn_ctx,omitempty"`   // "" unchanged | nil | set
+	Ctx          *Ctx    `json:"ctx,omitempty"`
 }
 
 // ---------------------------------------------------------------- generators
@@ -134,7 +158,9 @@ func cutRune(s string, n int) int {
 
 // genXMLText: name IDs and request IDs are XML-1.0-representable strings (DESIGN 2.6).
 func genXMLText(t *rapid.T, label string) string {
-	switch rapid.IntRange(0, 5).Draw(t, label+"class") {
+	switch rapid.IntRange(0, 6).Draw(t, label+"class") {
+	case 6: // carriage returns: multi-line DN-style values and stray CRs
+		return rapid.SampledFrom([]string{"CN=Jane Doe\r\nOU=People", "trailing\r", "\rleading", "a\rb", "a\r\n\r\nb", "\r", "x\ty\nz\r"}).Draw(t, label+"cr")
 	case 0:
 		return rapid.StringMatching(`[a-z0-9._-]{1,12}@[a-z]{1,8}\.[a-z]{2,3}`).Draw(t, label+"mail")
 	case 1:
@@ -211,10 +237,7 @@ func genConf(t *rapid.T) Conf {
 	case 2:
 		c.EntityID = "urn:example:sp:" + rapid.StringMatching(`[a-z0-9&<>"' =+#%]{1,10}`).Draw(t, "entityurn")
 	default:
-		c.EntityID = strings.ReplaceAll(xgen.TextNonEmpty().Draw(t, "entitytext"), "\r", "")
-		if c.EntityID == "" {
-			c.EntityID = "e"
-		}
+		c.EntityID = xgen.TextNonEmpty().Draw(t, "entitytext")
 	}
 	switch rapid.IntRange(0, 3).Draw(t, "signing") {
 	case 0, 1:
@@ -235,10 +258,40 @@ func genConf(t *rapid.T) Conf {
 	if rapid.IntRange(0, 2).Draw(t, "ctx") == 0 {
 		c.AuthnCtx = &Ctx{
 			Comparison: rapid.SampledFrom([]string{"exact", "minimum", "maximum", "better", ""}).Draw(t, "cmp"),
-			ClassRef:   rapid.SampledFrom([]string{"urn:oasis:names:tc:SAML:2.0:ac:classes:PasswordProtectedTransport", "urn:oasis:names:tc:SAML:2.0:ac:classes:X509", "urn:x:a&b<c>", ""}).Draw(t, "cref"),
+			ClassRef:   rapid.SampledFrom(classRefs).Draw(t, "cref"),
 		}
 	}
+	c.IDPLayout = rapid.SampledFrom([]string{"", "", "post-first", "decoys"}).Draw(t, "layout")
+	c.LogoutBindings = rapid.SampledFrom([][]string{nil, {saml.HTTPPostBinding}, {saml.HTTPRedirectBinding, saml.HTTPPostBinding}, {saml.HTTPRedirectBinding}}).Draw(t, "logoutbindings")
+	c.AllowIDPInitiated = rapid.Bool().Draw(t, "idpinit")
+	c.ValidDurationS = rapid.SampledFrom([]int{0, 0, 3600, 86400 * 30}).Draw(t, "validdur")
+	c.DefaultRedirectURI = rapid.SampledFrom([]string{"", "/", "/app?x=1&y=2"}).Draw(t, "defredir")
 	return c
+}
+
+var classRefs = []string{"urn:oasis:names:tc:SAML:2.0:ac:classes:PasswordProtectedTransport", "urn:oasis:names:tc:SAML:2.0:ac:classes:X509", "urn:x:a&b<c>", "urn:x:line1\rline2", ""}
+
+func genSet(t *rapid.T, label string) *Set {
+	if rapid.IntRange(0, 3).Draw(t, label+"has") != 0 {
+		return nil
+	}
+	st := &Set{}
+	switch rapid.IntRange(0, 4).Draw(t, label+"what") {
+	case 0:
+		v := rapid.SampledFrom([]string{"", "https://other.example/saml/metadata", "urn:example:sp:changed&<>", "urn:with\rcr"}).Draw(t, label+"entity")
+		st.EntityID = &v
+	case 1:
+		v := rapid.SampledFrom(nameIDFormats).Draw(t, label+"fmt")
+		st.NameIDFormat = &v
+	case 2:
+		st.ForceAuthn = rapid.SampledFrom([]string{"nil", "true", "false"}).Draw(t, label+"force")
+	case 3:
+		st.AuthnCtx = "nil"
+	default:
+		st.AuthnCtx = "set"
+		st.Ctx = &Ctx{Comparison: rapid.SampledFrom([]string{"exact", "minimum", ""}).Draw(t, label+"cmp"), ClassRef: rapid.SampledFrom(classRefs).Draw(t, label+"cref")}
+	}
+	return st
 }
 
 func genMsg(t *rapid.T, label string) Msg {
@@ -263,7 +316,11 @@ func gen(t *rapid.T) Case {
 		n = rapid.IntRange(2, 20).Draw(t, "nmsgs")
 	}
 	for i := 0; i < n; i++ {
-		c.Msgs = append(c.Msgs, genMsg(t, fmt.Sprintf("m%d", i)))
+		m := genMsg(t, fmt.Sprintf("m%d", i))
+		if i > 0 {
+			m.Set = genSet(t, fmt.Sprintf("m%dset", i))
+		}
+		c.Msgs = append(c.Msgs, m)
 	}
 	if rapid.IntRange(0, 9).Draw(t, "defaultrand") == 0 {
 		c.DefaultRand = true
@@ -351,6 +408,8 @@ type parties struct {
 	sp     *saml.ServiceProvider
 	idp    *saml.IdentityProvider
 	issuer string
+	stub   *spStub // what the IdP consults
+	reg    *spStub // registration matching the SP's current configuration (nil = the initial one)
 }
 
 func xmlRound(in, out any) error {
@@ -380,13 +439,32 @@ func build(c Conf) (*parties, error) {
 		{Binding: saml.HTTPRedirectBinding, Location: c.IDPSLORedirect},
 		{Binding: saml.HTTPPostBinding, Location: c.IDPSLOPost},
 	}
+	d0 := &idpMD.IDPSSODescriptors[0]
+	switch c.IDPLayout {
+	case "post-first":
+		for _, l := range []*[]saml.Endpoint{&d0.SingleSignOnServices, &d0.SingleLogoutServices} {
+			if len(*l) == 2 {
+				(*l)[0], (*l)[1] = (*l)[1], (*l)[0]
+			}
+		}
+	case "decoys":
+		decoy := func(b string, n int) saml.Endpoint {
+			return saml.Endpoint{Binding: b, Location: fmt.Sprintf("https://decoy%d.example/wrong", n)}
+		}
+		for _, l := range []*[]saml.Endpoint{&d0.SingleSignOnServices, &d0.SingleLogoutServices} {
+			if len(*l) == 2 {
+				*l = []saml.Endpoint{decoy(saml.HTTPArtifactBinding, 1), (*l)[0], decoy(saml.SOAPBinding, 2), decoy("urn:example:binding", 3), (*l)[1], decoy("urn:oasis:names:tc:SAML:2.0:bindings:PAOS", 4)}
+			}
+		}
+	}
 	k := fix.Get(c.Key)
 	sp := &saml.ServiceProvider{
 		EntityID: c.EntityID, Key: k.Key, Certificate: k.Cert,
 		MetadataURL: mustURL(c.MetadataURL), AcsURL: mustURL(c.AcsURL), SloURL: mustURL(c.SloURL),
 		IDPMetadata: idpMD, AuthnNameIDFormat: saml.NameIDFormat(c.NameIDFormat),
 		SignatureMethod: c.SigMethod, ForceAuthn: c.ForceAuthn,
-		LogoutBindings: []string{saml.HTTPPostBinding},
+		LogoutBindings: c.LogoutBindings, AllowIDPInitiated: c.AllowIDPInitiated, DefaultRedirectURI: c.DefaultRedirectURI,
+		MetadataValidDuration: time.Duration(c.ValidDurationS) * time.Second,
 	}
 	if c.AuthnCtx != nil {
 		sp.RequestedAuthnContext = &saml.RequestedAuthnContext{Comparison: c.AuthnCtx.Comparison, AuthnContextClassRef: c.AuthnCtx.ClassRef}
@@ -400,16 +478,75 @@ func build(c Conf) (*parties, error) {
 	if err := xmlRound(sp.Metadata(), spMD); err != nil {
 		return nil, fmt.Errorf("SP metadata does not round-trip through its XML form: %v", err)
 	}
-	idp.ServiceProviderProvider = &spStub{id: spMD.EntityID, md: spMD}
-	return &parties{sp: sp, idp: idp, issuer: issuer}, nil
+	stub := &spStub{id: spMD.EntityID, md: spMD}
+	idp.ServiceProviderProvider = stub
+	return &parties{sp: sp, idp: idp, issuer: issuer, stub: stub}, nil
+}
+
+// apply changes the long-lived SP the way an application would between two calls and
+// returns the configuration now in force.
+func apply(p *parties, eff Conf, st *Set) (Conf, error) {
+	if st == nil {
+		return eff, nil
+	}
+	if st.EntityID != nil {
+		eff.EntityID = *st.EntityID
+		p.sp.EntityID = *st.EntityID
+		p.issuer = eff.EntityID
+		if p.issuer == "" {
+			p.issuer = eff.MetadataURL
+		}
+		// the IdP learns about the renamed SP from the metadata it publishes now
+		spMD := &saml.EntityDescriptor{}
+		if err := xmlRound(p.sp.Metadata(), spMD); err != nil {
+			return eff, fmt.Errorf("SP metadata does not round-trip through its XML form: %v", err)
+		}
+		p.reg = &spStub{id: spMD.EntityID, md: spMD}
+	}
+	if st.NameIDFormat != nil {
+		eff.NameIDFormat = *st.NameIDFormat
+		p.sp.AuthnNameIDFormat = saml.NameIDFormat(*st.NameIDFormat)
+	}
+	switch st.ForceAuthn {
+	case "nil":
+		eff.ForceAuthn, p.sp.ForceAuthn = nil, nil
+	case "true", "false":
+		v, w := st.ForceAuthn == "true", st.ForceAuthn == "true"
+		eff.ForceAuthn, p.sp.ForceAuthn = &v, &w
+	}
+	switch st.AuthnCtx {
+	case "nil":
+		eff.AuthnCtx, p.sp.RequestedAuthnContext = nil, nil
+	case "set":
+		if st.Ctx != nil {
+			cp := *st.Ctx
+			eff.AuthnCtx = &cp
+			p.sp.RequestedAuthnContext = &saml.RequestedAuthnContext{Comparison: cp.Comparison, AuthnContextClassRef: cp.ClassRef}
+		}
+	}
+	return eff, nil
 }
 
 // ---------------------------------------------------------------- creating and decoding one message
 
 type emitted struct {
-	wire string // redirect: the URL text; post: the HTML
+	// u / page: exactly what the call returned (kept while later calls are made)
+	u    *url.URL
+	page []byte
+	// wire0: a copy of the wire form taken right at creation (redirect: the URL text; post: the HTML)
+	wire0 string
+	// wire: the wire form as read from u / page when the message is judged
+	wire string
 	err  error
 	pan  any
+}
+
+// now reads the wire form from the retained return value.
+func (e *emitted) now() string {
+	if e.u != nil {
+		return e.u.String()
+	}
+	return string(e.page)
 }
 
 func create(p *parties, m Msg) (e emitted) {
@@ -439,11 +576,9 @@ func create(p *parties, m Msg) (e emitted) {
 	if e.err != nil {
 		return e
 	}
-	if u != nil {
-		e.wire = u.String()
-	} else {
-		e.wire = string(page)
-	}
+	e.u, e.page = u, page
+	e.wire0 = strings.Clone(e.now())
+	e.wire = e.wire0
 	return e
 }
 
@@ -466,17 +601,13 @@ func paramOf(m Msg) (mine, other string) {
 	return "SAMLRequest", "SAMLResponse"
 }
 
-// xmlLineEnds applies XML 1.0 2.11 (CR LF and CR read as LF) and, for attribute
-// values, 3.3.3 (TAB, LF read as a space) to both sides of a comparison: whether
-// literal line ends survive the XML form is C07's subject, not this property's.
-func xmlLineEnds(s string, attr bool) string {
-	s = strings.ReplaceAll(s, "\r\n", "\n")
-	s = strings.ReplaceAll(s, "\r", "\n")
-	if attr {
-		s = strings.ReplaceAll(s, "\n", " ")
-		s = strings.ReplaceAll(s, "\t", " ")
-	}
-	return s
+// attrSpace applies XML 1.0 3.3.3 to both sides of an attribute comparison: a literal TAB or LF
+// inside an attribute value is read as a space by a conforming parser (the property is silent about
+// white space inside request IDs).  A carriage return is NOT touched: written as a character
+// reference it survives every parser, so it has to come back as given.
+func attrSpace(s string) string {
+	s = strings.ReplaceAll(s, "\n", " ")
+	return strings.ReplaceAll(s, "\t", " ")
 }
 
 type decoded struct {
@@ -687,11 +818,11 @@ func checkXML(c Conf, p *parties, m Msg, d *decoded) string {
 		if err != nil || nid == nil {
 			return fmt.Sprintf("NameID missing or repeated (%v)", err)
 		}
-		if xmlLineEnds(nid.Text, false) != xmlLineEnds(m.NameID, false) {
+		if nid.Text != m.NameID {
 			return fmt.Sprintf("NameID is %q, given %q", nid.Text, m.NameID)
 		}
 	case "logoutresp":
-		if v := root.AttrOr("InResponseTo"); xmlLineEnds(v, true) != xmlLineEnds(m.RequestID, true) {
+		if v := root.AttrOr("InResponseTo"); attrSpace(v) != attrSpace(m.RequestID) {
 			return fmt.Sprintf("InResponseTo is %q, given request ID %q", v, m.RequestID)
 		}
 	}
@@ -850,10 +981,28 @@ func check(c Case) pbt.Result {
 		id       string
 		from, to int
 	}
-	var all []made
+	// one record per creation; nothing is judged before the whole sequence has been created
+	type record struct {
+		m        Msg
+		eff      Conf // configuration in force at creation
+		issuer   string
+		reg      *spStub // what the IdP knows about the SP at that moment
+		e        emitted
+		from, to int
+	}
+	var recs []record
+	eff := c.Conf
 	for i, m := range c.Msgs {
 		add(m.Type + "/" + m.Binding)
-		ep := endpointOf(c.Conf, m)
+		if m.Set != nil {
+			add("config-changed-between-calls")
+			nontrivial = true
+		}
+		var err error
+		if eff, err = apply(p, eff, m.Set); err != nil {
+			return fail(classes, "message %d: %v", i, err)
+		}
+		ep := endpointOf(eff, m)
 		if strings.Contains(ep, "?") {
 			add("endpoint:query")
 			nontrivial = true
@@ -863,6 +1012,9 @@ func check(c Case) pbt.Result {
 		}
 		if interesting(m.RelayState) || interesting(m.NameID) || interesting(m.RequestID) {
 			nontrivial = true
+		}
+		if strings.ContainsRune(m.NameID+m.RequestID+eff.EntityID, '\r') {
+			add("content:CR")
 		}
 		switch {
 		case m.RelayState == "":
@@ -883,40 +1035,61 @@ func check(c Case) pbt.Result {
 		if rec != nil {
 			to = rec.off
 		}
-		where := fmt.Sprintf("message %d (%s/%s, relay state %q)", i, m.Type, m.Binding, m.RelayState)
 		if e.pan != nil {
-			return fail(classes, "%s: creation panics: %v", where, e.pan)
+			return fail(classes, "message %d (%s/%s, relay state %q): creation panics: %v", i, m.Type, m.Binding, m.RelayState, e.pan)
 		}
 		if e.err != nil {
-			return fail(classes, "%s: creation fails: %v", where, e.err)
+			return fail(classes, "message %d (%s/%s, relay state %q): creation fails: %v", i, m.Type, m.Binding, m.RelayState, e.err)
+		}
+		reg := p.reg
+		if reg == nil {
+			reg = p.stub
+		}
+		recs = append(recs, record{m: m, eff: eff, issuer: p.issuer, reg: &spStub{id: reg.id, md: reg.md}, e: e, from: from, to: to})
+	}
+	if c.Conf.IDPLayout != "" {
+		add("idp-layout:" + c.Conf.IDPLayout)
+	}
+
+	// ---- every returned value is judged now, after all later calls have been made
+	var all []made
+	for i := range recs {
+		r := &recs[i]
+		m := r.m
+		where := fmt.Sprintf("message %d of %d (%s/%s, relay state %q)", i, len(recs), m.Type, m.Binding, m.RelayState)
+		r.e.wire = r.e.now()
+		if r.e.wire != r.e.wire0 {
+			return fail(classes, "%s: the value returned by this call changed while later messages were created\n  at creation: %q\n  now:         %q", where, trunc(r.e.wire0), trunc(r.e.wire))
 		}
 		skipMsg := exclRelay && m.Type == "authn" && m.Binding == "redirect" && needsEscaping(m.RelayState)
 		if skipMsg {
 			// development aid: the whole message is left unjudged (see the report)
 			add("excluded:relaystate-unescaped")
-			all = append(all, made{id: fmt.Sprintf("?%d", i), from: from, to: to})
+			all = append(all, made{id: fmt.Sprintf("?%d", i), from: r.from, to: r.to})
 			continue
 		}
+		p.issuer = r.issuer
+		p.stub.id, p.stub.md = r.reg.id, r.reg.md
 		var d *decoded
 		var msg string
 		if m.Binding == "redirect" {
-			d, msg = decodeRedirect(c.Conf, m, e.wire)
+			d, msg = decodeRedirect(r.eff, m, r.e.wire)
 		} else {
-			d, msg = decodePost(c.Conf, m, e.wire)
+			d, msg = decodePost(r.eff, m, r.e.wire)
 		}
 		if msg != "" {
 			return fail(classes, "%s: %s", where, msg)
 		}
-		if msg = checkXML(c.Conf, p, m, d); msg != "" {
+		if msg = checkXML(r.eff, p, m, d); msg != "" {
 			return fail(classes, "%s: %s", where, msg)
 		}
 		if m.Type == "authn" {
-			if msg = idpAccepts(c.Conf, p, m, e, d); msg != "" {
+			if msg = idpAccepts(r.eff, p, m, r.e, d); msg != "" {
 				return fail(classes, "%s: %s", where, msg)
 			}
 			add("idp:accepted")
 		}
-		all = append(all, made{id: d.id, from: from, to: to})
+		all = append(all, made{id: d.id, from: r.from, to: r.to})
 	}
 
 	// ---- ID freshness
@@ -943,6 +1116,7 @@ func check(c Case) pbt.Result {
 	// ---- derivation: same octets -> same ID; one inverted bit among the first 16 octets -> another ID
 	if rec != nil && !strings.HasPrefix(all[0].id, "?") {
 		m := c.Msgs[0]
+		_ = recs[0].eff
 		rerun := func(flipAt, flipBit int) (string, string) {
 			fix.Reset()
 			src, _ := hex.DecodeString(c.Rand)
@@ -952,7 +1126,6 @@ func check(c Case) pbt.Result {
 				return "", fmt.Sprintf("re-run fails: %v %v", e.pan, e.err)
 			}
 			var d *decoded
-			var msg string
 			if m.Binding == "redirect" {
 				// only the payload is needed here; relay-state defects are reported above
 				w := urlw.Split(e.wire)
@@ -968,10 +1141,23 @@ func check(c Case) pbt.Result {
 				}
 				d = &decoded{xml: x}
 			} else {
-				d, msg = decodePost(c.Conf, m, e.wire)
-				if msg != "" {
-					return "", "re-run: " + msg
+				doc, err := htmlw.Parse([]byte(e.wire))
+				if err != nil {
+					return "", "re-run: " + err.Error()
 				}
+				mine, _ := paramOf(m)
+				var v []string
+				for _, f := range htmlw.Forms(doc) {
+					v = append(v, f.Field(mine)...)
+				}
+				if len(v) != 1 {
+					return "", "re-run: no payload"
+				}
+				x, err := samlwire.B64(v[0])
+				if err != nil {
+					return "", "re-run: " + err.Error()
+				}
+				d = &decoded{xml: x}
 			}
 			root, err := samlwire.ParseXML(d.xml)
 			if err != nil {
@@ -1042,9 +1228,55 @@ func enumRelayBytes(_ string, emit func(Case)) {
 	}
 }
 
+var kinds = [][2]string{{"authn", "redirect"}, {"authn", "post"}, {"logoutreq", "redirect"}, {"logoutreq", "post"}, {"logoutresp", "redirect"}, {"logoutresp", "post"}}
+
+// enumPairs: every ordered pair (and a few triples) of message kinds created on one SP, each with
+// its own relay state / name ID / request ID; all results are judged after the last creation.
+func enumPairs(_ string, emit func(Case)) {
+	mk := func(k [2]string, n int) Msg {
+		return Msg{Type: k[0], Binding: k[1], RelayState: fmt.Sprintf("relay-%d?return=/a&b=c d+e", n), NameID: fmt.Sprintf("user%d@example.com", n), RequestID: fmt.Sprintf("id-req-%d", n)}
+	}
+	for _, a := range kinds {
+		for _, b := range kinds {
+			emit(Case{Conf: baseConf(), Msgs: []Msg{mk(a, 0), mk(b, 1)}, Rand: fixedRand + fixedRand, Chunk: 64})
+			for _, c3 := range kinds[:2] {
+				emit(Case{Conf: baseConf(), Msgs: []Msg{mk(a, 0), mk(b, 1), mk(c3, 2)}, Rand: fixedRand + fixedRand + fixedRand, Chunk: 64, Flip: 77})
+			}
+		}
+	}
+	// the same with signing on and a configuration change in between
+	cf := baseConf()
+	cf.SigMethod = dsig.RSASHA256SignatureMethod
+	yes := "true"
+	for _, a := range kinds {
+		for _, b := range kinds {
+			m2 := mk(b, 1)
+			m2.Set = &Set{ForceAuthn: yes}
+			emit(Case{Conf: cf, Msgs: []Msg{mk(a, 0), m2}, Rand: fixedRand + fixedRand, Chunk: 20})
+		}
+	}
+}
+
+// enumCR: carriage returns in every text- and attribute-position content, on every message kind,
+// with every IdP metadata layout.
+func enumCR(_ string, emit func(Case)) {
+	for _, layout := range []string{"", "post-first", "decoys"} {
+		for _, v := range []string{"CN=Jane Doe\r\nOU=People", "trailing\r", "\rleading", "a\rb", "\r"} {
+			for _, k := range kinds {
+				cf := baseConf()
+				cf.IDPLayout = layout
+				emit(Case{Conf: cf, Msgs: []Msg{{Type: k[0], Binding: k[1], RelayState: "rs", NameID: v, RequestID: v}}, Rand: fixedRand, Chunk: 64})
+				cf.EntityID = "urn:sp:" + v
+				cf.AuthnCtx = &Ctx{Comparison: "exact", ClassRef: "urn:ctx:" + v}
+				emit(Case{Conf: cf, Msgs: []Msg{{Type: k[0], Binding: k[1], RelayState: v, NameID: "u", RequestID: "id-1"}}, Rand: fixedRand, Chunk: 64})
+			}
+		}
+	}
+}
+
 var prop = &pbt.Prop[Case]{
 	ID: "C12",
-	Rule: "cases: SP/IdP configurations (entity ID set/unset/markup-bearing, endpoints with and without query and fragment, signing off / RSA / ECDSA with each method, every NameID format, ForceAuthn, RequestedAuthnContext) x sequences of 1..20 creations of AuthnRequest / LogoutRequest / LogoutResponse in the redirect and POST bindings x relay states (empty, plain, URL metacharacters, URLs, >80 bytes, control characters, hostile XML/HTML tokens, non-ASCII) x name IDs / request IDs over XML-1.0 strings x a recording random source fed with drawn octets (or the default source). " +
+	Rule: "cases: SP/IdP configurations (entity ID set/unset/markup-bearing, endpoints with and without query and fragment, signing off / RSA / ECDSA with each method, every NameID format, ForceAuthn, RequestedAuthnContext) x IdP metadata layouts (endpoint order, decoy endpoints of other bindings) x sequences of 1..20 creations of AuthnRequest / LogoutRequest / LogoutResponse in the redirect and POST bindings on ONE ServiceProvider value, optionally with configuration changes between calls, all results kept and judged after the last call x relay states (empty, plain, URL metacharacters, URLs, >80 bytes, control characters, hostile XML/HTML tokens, non-ASCII) x name IDs / request IDs over XML-1.0 strings x a recording random source fed with drawn octets (or the default source). " +
 		"oracle: own query splitter / HTML DOM / base64+inflate / XML token reader recover exactly one payload and one byte-equal RelayState, pre-existing parameters intact, no fragment introduced, message fields equal the configuration; the library IdP (registered with the SP's published metadata) validates every AuthnRequest and reports the same relay state and ID; every creation draws >= 16 octets, IDs are pairwise distinct, re-running with the same octets gives the same ID and inverting one bit of the first 16 octets changes it. " +
 		"non-trivial: a relay state / name ID / request ID with a URL or HTML metacharacter, a non-ASCII or control rune or more than 80 bytes, or an endpoint that already has a query, or a sequence of >= 2 creations. distinct: sha256 of the JSON case.",
 	Gen:   gen,
@@ -1053,12 +1285,18 @@ var prop = &pbt.Prop[Case]{
 	Enums: []pbt.Enum[Case]{
 		{Name: "id-bit-flips-128x3x2", Each: enumFlips},
 		{Name: "relay-state-single-octets-0x01..0x7f", Each: enumRelayBytes},
+		{Name: "message-kind-pairs-judged-after-the-sequence", Each: enumPairs},
+		{Name: "carriage-return-contents-x-kinds-x-idp-layouts", Each: enumCR},
 	},
 	Assumptions: []string{
 		"'+' in a query component is read as a space (application/x-www-form-urlencoded, what every mainstream receiver does); see internal/urlw",
 		"pre-existing endpoint queries are drawn from octets all readers agree on (no ';' separators, no malformed percent escapes); they are compared after decoding, as a key -> ordered values multimap",
 		"endpoint queries never contain parameters called SAMLRequest, SAMLResponse, RelayState, SigAlg or Signature",
-		"name IDs and request IDs are XML-1.0-representable strings (DESIGN 2.6) and are compared modulo XML 1.0 line-end / attribute-value normalisation (that is C07's subject); relay states are any valid UTF-8 without NUL",
+		"name IDs and request IDs are XML-1.0-representable strings (DESIGN 2.6); name ID, issuer and class reference (text positions) must come back exactly, carriage returns included, on every binding; the request ID (attribute position) must come back exactly except that a literal TAB / LF may read as a space (XML 3.3.3; property silent) - a carriage return must survive there too; relay states are any valid UTF-8 without NUL",
+		"results are judged only after the whole sequence has been created: every []byte / *url.URL a call returned is kept, compared with a copy taken at creation time, and decoded then",
+		"between two creations the application may change public fields of the one ServiceProvider value (EntityID, AuthnNameIDFormat, ForceAuthn, RequestedAuthnContext); each message must reflect the configuration in force when it was created (the IdP is re-registered with the SP's then-current metadata)",
+		"the SP's copy of the IdP metadata may list endpoints in either order and contain endpoints of other bindings with other locations; the destination is the endpoint of the requested binding (never two endpoints with the same binding)",
+		"LogoutBindings, AllowIDPInitiated, MetadataValidDuration and DefaultRedirectURI are varied and never judged",
 		"POST forms: the relay state is compared with the DOM value modulo the HTML parser's own CR -> LF rewriting of literal attribute text",
 		"an empty relay state may be emitted as no RelayState parameter or as one empty parameter (both read back as empty)",
 		"AuthnNameIDFormat \"\" (library default) is not judged; 'unspecified' may be emitted as an absent Format",
